@@ -14,6 +14,9 @@ PROCEDURE_START_PREFIX = re.compile(r"(?i)procedure\s+([\w-]+)\s*$")
 # Procedures that have been called.
 INVOKED_PROCEDURE_NAMES = re.compile(r'(?i)\s*RUN\s+(\w+)(?=[^"]*(?:"[^"]*"[^"]*)*$)')
 
+# Lines that are entirely a comment (optionally labelled) never invoke anything
+COMMENT_LINE = re.compile(r"(?i)\s*(\d+\s+)?(\(\*|REM\b)")
+
 # Finds STRING<<>> occurences so that they can be replaced with storage sizes
 STR_STORAGE_TAG = re.compile(r'(?i)\:\s*STRING\<\<\>\>(?=[^"]*(?:"[^"]*"[^"]*)*$)')
 
@@ -60,6 +63,8 @@ class ProcedureBank(object):
                 name = match[1]
                 name_to_procedure_array[name] = current_procedure
             current_procedure.append(line)
+            if COMMENT_LINE.match(line):
+                continue
             invoked_names = INVOKED_PROCEDURE_NAMES.findall(line)
             self._name_to_dependencies[name].update(invoked_names)
 
